@@ -17,6 +17,7 @@
    the unauthenticated loader: if they followed an unterminated block list, the repair loop
    would parse them as blocks.  The real writer finalizes the encryption layer only after
    EndOfArchiveData and the footer, so the first disjunct is what occurs. *)
+From MLA Require Import Limit.
 From MLA Require Import Base Stream Blocks Writer Repair RepairSpec RepairPure
   RepairProofs2 RepairProofs5 RepairProofs6 EncLayer EncLayerProofs EncAuth EncAuthFs EncAuthC
   EncAuthTrunc EncWriter EncWriterProofs Inst Run ComposeRdOnly.
@@ -37,6 +38,7 @@ Qed.
 
 (* ---------- the fail-safe output on the UNCUT wire, and its growth with the cut ---------- *)
 Section FullWire.
+  Context {LIM : Limit}.
   Variables CHUNK TAG : N.
   Hypothesis HCHUNK : 0 < CHUNK.
   Hypothesis HTAG : 0 < TAG.
@@ -123,6 +125,7 @@ End FullWire.
 
 (* the unauthenticated output grows with the inner bytes *)
 Section UnauthMono.
+  Context {LIM : Limit}.
   Variables CHUNK TAG : N.
   Hypothesis HCHUNK : 0 < CHUNK.
   Variable ks : N -> N -> N.
@@ -164,6 +167,7 @@ End UnauthMono.
 
 (* ---------- the composition ---------- *)
 Section EncRepair.
+  Context {LIM : Limit}.
   Variable FNMAX CACHE : N.
   Hypothesis HFN : FNMAX < 2 ^ 64.
   Hypothesis HCACHE : 0 < CACHE.
@@ -269,48 +273,52 @@ Section EncRepair.
     Theorem repair_encrypted_cut_sound n unauth fuel :
       (N.to_nat (len plain + TAG) < fuel)%nat ->
       exists es b, fs_open (Cursor (takeN n (ew_out s))) 0 = (es, Ok b) /\
-        repair_sound_concl bl (repair (FsEnc unauth (Cursor (takeN n (ew_out s)))) fuel es w_init).
+        (* finalize did not fail with SerializationError (footer within the bincode limit) *)
+        (repair (FsEnc unauth (Cursor (takeN n (ew_out s)))) fuel es w_init <> Err EDeser ->
+         repair_sound_concl bl (repair (FsEnc unauth (Cursor (takeN n (ew_out s)))) fuel es w_init)).
     Proof.
       intros Hf. destruct (fsenc_rd_refines unauth _ (cut_big n)) as (I & HR & es & b & Ho & HI).
-      exists es, b. split; [exact Ho|].
+      exists es, b. split; [exact Ho|]. intros Hser.
       exact (repair_sound_rd FNMAX CACHE HFN HCACHE T_START T_CONTENT T_EOA T_EOF Htags H H_len
-               _ _ I HR bl (trailer ++ junk plain) Hwf Htr (fs_output_cut unauth n) es HI fuel (fuel_ok unauth n fuel Hf)).
+               _ _ I HR bl (trailer ++ junk plain) Hwf Htr (fs_output_cut unauth n) es HI fuel (fuel_ok unauth n fuel Hf) Hser).
     Qed.
 
     (* C05, encrypted: exactly the content bytes present in what the decryptor delivers *)
     Theorem repair_encrypted_max n unauth fuel :
       (N.to_nat (len plain + TAG) < fuel)%nat ->
       exists es b, fs_open (Cursor (takeN n (ew_out s))) 0 = (es, Ok b) /\
+      (repair (FsEnc unauth (Cursor (takeN n (ew_out s)))) fuel es w_init <> Err EDeser ->
       exists status unfinished out obl,
         repair (FsEnc unauth (Cursor (takeN n (ew_out s)))) fuel es w_init = Ok (status, unfinished, out) /\
         good_output out obl /\
         (forall f, In f (files_of bl) ->
            content_of (files_of obl) (f_name f) =
-           present (f_id f) bl (len (fs_output unauth (takeN n (ew_out s))))).
+           present (f_id f) bl (len (fs_output unauth (takeN n (ew_out s)))))).
     Proof.
       intros Hf. destruct (fsenc_rd_refines unauth _ (cut_big n)) as (I & HR & es & b & Ho & HI).
-      exists es, b. split; [exact Ho|].
+      exists es, b. split; [exact Ho|]. intros Hser.
       exact (repair_max_rd FNMAX CACHE HFN HCACHE T_START T_CONTENT T_EOA T_EOF Htags H H_len
-               _ _ I HR bl (trailer ++ junk plain) Hwf Htr (fs_output_cut unauth n) es HI fuel (fuel_ok unauth n fuel Hf)).
+               _ _ I HR bl (trailer ++ junk plain) Hwf Htr (fs_output_cut unauth n) es HI fuel (fuel_ok unauth n fuel Hf) Hser).
     Qed.
 
     (* C05, encrypted: the undamaged wire, both modes: everything recovered *)
     Theorem repair_encrypted_intact_complete unauth fuel :
       In BEnd bl -> (N.to_nat (len plain + TAG) < fuel)%nat ->
       exists es b, fs_open (Cursor (ew_out s)) 0 = (es, Ok b) /\
+      (repair (FsEnc unauth (Cursor (ew_out s))) fuel es w_init <> Err EDeser ->
       exists out obl,
         repair (FsEnc unauth (Cursor (ew_out s))) fuel es w_init = Ok (FEndOfData, [], out) /\
         good_output out obl /\ Forall2 same (files_of bl) (files_of obl) /\
-        (forall f, In f (files_of bl) -> f_ended f = true).
+        (forall f, In f (files_of bl) -> f_ended f = true)).
     Proof.
       intros Hend Hf.
       assert (Hall : takeN (len (ew_out s)) (ew_out s) = ew_out s) by (apply takeN_all; lia).
       pose proof (fs_output_cut unauth (len (ew_out s))) as Hcut.
       pose proof (fuel_ok unauth (len (ew_out s)) fuel Hf) as Hfu. rewrite Hall in Hcut, Hfu.
       destruct (fsenc_rd_refines unauth _ Hbig) as (I & HR & es & b & Ho & HI).
-      exists es, b. split; [exact Ho|].
+      exists es, b. split; [exact Ho|]. intros Hser.
       apply (repair_intact_rd FNMAX CACHE HFN HCACHE T_START T_CONTENT T_EOA T_EOF Htags H H_len
-               _ _ I HR bl (trailer ++ junk plain) Hwf Htr Hcut es HI fuel Hfu Hend).
+               _ _ I HR bl (trailer ++ junk plain) Hwf Htr Hcut es HI fuel Hfu Hser Hend).
       assert (Hp : prefix plain (fs_output unauth (ew_out s))).
       { rewrite wire_is. pose proof (fs_auth_full CHUNK TAG HCHUNK HTAG ks tagc Htagc plain) as Ha.
         destruct unauth; cbn [fs_output]; [|exact Ha].
@@ -326,22 +334,24 @@ Section EncRepair.
       exists es1 b1 es2 b2,
         fs_open (Cursor (takeN n (ew_out s))) 0 = (es1, Ok b1) /\
         fs_open (Cursor (takeN m (ew_out s))) 0 = (es2, Ok b2) /\
+      (repair (FsEnc u1 (Cursor (takeN n (ew_out s)))) fuel1 es1 w_init <> Err EDeser ->
+       repair (FsEnc u2 (Cursor (takeN m (ew_out s)))) fuel2 es2 w_init <> Err EDeser ->
       exists st1 un1 out1 obl1 st2 un2 out2 obl2,
         repair (FsEnc u1 (Cursor (takeN n (ew_out s)))) fuel1 es1 w_init = Ok (st1, un1, out1) /\
         good_output out1 obl1 /\
         repair (FsEnc u2 (Cursor (takeN m (ew_out s)))) fuel2 es2 w_init = Ok (st2, un2, out2) /\
         good_output out2 obl2 /\
-        forall name, prefix (content_of (files_of obl1) name) (content_of (files_of obl2) name).
+        forall name, prefix (content_of (files_of obl1) name) (content_of (files_of obl2) name)).
     Proof.
       intros Hle Hf1 Hf2.
       destruct (fsenc_rd_refines u1 _ (cut_big n)) as (I1 & HR1 & es1 & b1 & Ho1 & HI1).
       destruct (fsenc_rd_refines u2 _ (cut_big m)) as (I2 & HR2 & es2 & b2 & Ho2 & HI2).
-      exists es1, b1, es2, b2. split; [exact Ho1|]. split; [exact Ho2|].
+      exists es1, b1, es2, b2. split; [exact Ho1|]. split; [exact Ho2|]. intros Hser1 Hser2.
       destruct (repair_exact_rd FNMAX CACHE HFN HCACHE T_START T_CONTENT T_EOA T_EOF Htags H H_len
-                  _ _ I1 HR1 bl (trailer ++ junk plain) Hwf Htr (fs_output_cut u1 n) es1 HI1 fuel1 (fuel_ok u1 n fuel1 Hf1))
+                  _ _ I1 HR1 bl (trailer ++ junk plain) Hwf Htr (fs_output_cut u1 n) es1 HI1 fuel1 (fuel_ok u1 n fuel1 Hf1) Hser1)
         as (out1 & obl1 & Hr1 & Hg1 & Hsame1).
       destruct (repair_exact_rd FNMAX CACHE HFN HCACHE T_START T_CONTENT T_EOA T_EOF Htags H H_len
-                  _ _ I2 HR2 bl (trailer ++ junk plain) Hwf Htr (fs_output_cut u2 m) es2 HI2 fuel2 (fuel_ok u2 m fuel2 Hf2))
+                  _ _ I2 HR2 bl (trailer ++ junk plain) Hwf Htr (fs_output_cut u2 m) es2 HI2 fuel2 (fuel_ok u2 m fuel2 Hf2) Hser2)
         as (out2 & obl2 & Hr2 & Hg2 & Hsame2).
       eexists _, _, out1, obl1, _, _, out2, obl2.
       split; [exact Hr1|]. split; [exact Hg1|]. split; [exact Hr2|]. split; [exact Hg2|].
@@ -372,12 +382,14 @@ Section EncRepair.
       exists es1 b1 es2 b2,
         fs_open (Cursor (takeN n (ew_out s))) 0 = (es1, Ok b1) /\
         fs_open (Cursor (takeN m (ew_out s))) 0 = (es2, Ok b2) /\
+      (repair (FsEnc u1 (Cursor (takeN n (ew_out s)))) fuel1 es1 w_init <> Err EDeser ->
+       repair (FsEnc true (Cursor (takeN m (ew_out s)))) fuel2 es2 w_init <> Err EDeser ->
       exists st1 un1 out1 obl1 st2 un2 out2 obl2,
         repair (FsEnc u1 (Cursor (takeN n (ew_out s)))) fuel1 es1 w_init = Ok (st1, un1, out1) /\
         good_output out1 obl1 /\
         repair (FsEnc true (Cursor (takeN m (ew_out s)))) fuel2 es2 w_init = Ok (st2, un2, out2) /\
         good_output out2 obl2 /\
-        forall name, prefix (content_of (files_of obl1) name) (content_of (files_of obl2) name).
+        forall name, prefix (content_of (files_of obl1) name) (content_of (files_of obl2) name)).
     Proof. intros Hnm. apply repair_encrypted_monotone_gen, fs_output_mono, Hnm. Qed.
   End OneArchive.
 End EncRepair.
